@@ -2,6 +2,7 @@ import OjgVerif.Match.LemmasSel
 import OjgVerif.Match.LemmasSpec
 import OjgVerif.Match.LemmasStream
 import OjgVerif.Gen.MatchFacts
+import OjgVerif.Props.C03
 /-! # C17 — streaming Match equals parse-then-locate
 
 `matchRun dv targets (events doc)` are the callbacks of the `MatchHandler` model (Match/Model.lean)
@@ -10,8 +11,10 @@ select, in document order, with their values (Match/Spec.lean). Chunking does no
 handler sits behind oj.Tokenizer / sen.Tokenizer and sees token events only; that the token-event
 sequence does not depend on the chunking of the reader is property C03 (`chunks_irrelevant` for the
 JSON machine, partial for SEN), and the handler is a function of the event sequence (the event
-list is an explicit argument of `matchRun`), which gives chunk independence of the callbacks as a
-corollary (`callbacks_chunk_independent`).
+list is an explicit argument of `matchRun`). Chunk independence of the callbacks is therefore NOT a
+proved clause of this module: `callbacks_chunk_independent_given_C03` is conditional on C03 as an
+undischarged hypothesis, `callbacks_chunk_independent_machine` discharges it only for a token
+stream defined from the result of C03's byte machine; for the Go code it is tied by correspondence.
 
 SCOPE: `C17_partial` holds for target SETS in which NO target uses a slice (other than `[:]`), a
 filter or a from-the-end index/union member anywhere. `C17_streamed` weakens that for slices and
@@ -176,18 +179,22 @@ theorem C17_mixed (good bad : List Target) (doc : JV) (hdoc : NoDupKeys doc = tr
     exact List.map_congr_left (fun t ht => asStreamed_id t (hg t ht))
   rw [List.map_append, this]
 
-/-- Chunk independence of the callbacks. The handler is a function of the token-event sequence
-(`evs` is an explicit argument of `matchRun`); so for ANY tokenizer `tok` whose event sequence does
-not depend on the chunking `c` of the reader — property C03 for oj.Tokenizer / sen.Tokenizer,
-here a hypothesis — the callbacks do not depend on it either, and equal `expected` as soon as the
-events are those of the document. -/
-theorem callbacks_chunk_independent {C : Type} (tok : C → Bytes → List Event)
+/-- CONDITIONAL on a hypothesis that is NOT proved here and NOT connected to this token model: IF a
+tokenizer `tok` delivers the same event sequence for every chunking `c` (`hC03`), THEN the callbacks
+do not depend on the chunking. The proof is one rewrite: all it records is that the handler is a
+function of the event sequence (`evs` is an explicit argument of `matchRun`). `hC03` is property
+C03; `OjgVerif.C03.chunks_irrelevant` proves it for the RESULT of the JSON byte machine, which
+delivers documents, not token events (see `callbacks_chunk_independent_machine` for what that
+gives); for the Go tokenizers' event sequences it is tied by the correspondence runs of C03 and of
+this harness (chunkings of MatchLoad) only. -/
+theorem callbacks_chunk_independent_given_C03 {C : Type} (tok : C → Bytes → List Event)
     (hC03 : ∀ (c c' : C) (text : Bytes), tok c text = tok c' text)
     (dv : Dev) (targets : List Target) (c c' : C) (text : Bytes) :
     matchRun dv targets (tok c text) = matchRun dv targets (tok c' text) := by
   rw [hC03 c c' text]
 
-theorem callbacks_any_chunking {C : Type} (tok : C → Bytes → List Event)
+/-- the same with `C17_partial` behind it; conditional on `hC03` and `htok` in the same way -/
+theorem callbacks_any_chunking_given_C03 {C : Type} (tok : C → Bytes → List Event)
     (hC03 : ∀ (c c' : C) (text : Bytes), tok c text = tok c' text)
     (targets : List Target) (doc : JV) (hdoc : NoDupKeys doc = true)
     (hdev : ∀ t ∈ targets, deviates t = false)
@@ -195,6 +202,25 @@ theorem callbacks_any_chunking {C : Type} (tok : C → Bytes → List Event)
     matchRun Dev.cur targets (tok c text) = expected targets doc := by
   rw [hC03 c c₀ text, htok]
   exact C17_partial targets doc hdoc hdev
+
+/-- the token events of the documents a run of the JSON byte machine delivers (none on an error:
+the events a tokenizer hands over BEFORE an error are not in this model) -/
+def machineEvents : Except Json.Err (List JV) → List Event
+  | .ok docs => docs.flatMap events
+  | .error _ => []
+
+/-- The hypothesis discharged where it can be: for the token stream DEFINED as the events of the
+documents that the C03 byte machine delivers in the configuration of oj.Tokenizer.Load (reader entry
+point, no integer fast loop), the callbacks are the same for every chunking — by
+`C03.chunks_irrelevant`, BOM top-up included. What stays untied by a theorem: that the Go
+tokenizer's event sequence IS `machineEvents` of that run (it calls the handler token by token,
+also before an error), and the SEN tokenizer (C03 is partial for SEN). -/
+theorem callbacks_chunk_independent_machine (T : Json.Tables) (cfg : Json.Cfg)
+    (h : cfg.fastInt = false) (hr : cfg.reader = true) (dv : Dev) (targets : List Target)
+    (chunks : List Bytes) :
+    matchRun dv targets (machineEvents (Json.run T cfg chunks))
+      = matchRun dv targets (machineEvents (Json.run T cfg [chunks.flatten])) := by
+  rw [C03.chunks_irrelevant T cfg h hr chunks]
 
 /-- Regression tripwire over the patched lines (NOT a proof that the Go code is the model; that tie
 is the correspondence run): the deviation flags of `Dev.cur` agree with syntactic facts regenerated
